@@ -240,8 +240,29 @@ pub fn f32_from_le(b: [u8; 4]) -> (r: f32) ensures r == f32_of_bits(dle32(b@, 0)
 #[verifier::external_body]
 pub fn f32_from_be(b: [u8; 4]) -> (r: f32) ensures r == f32_of_bits(dbe32(b@, 0) as u32) { f32::from_be_bytes(b) }
 // ---- codec inverse lemmas (include after bytes.rs when needed) ----
-pub proof fn lemma_codec16(big: bool, x: u16) ensures e16(big, x).len() == 2, d16(big, e16(big, x), 0) == x { reveal(byte_of); }
-pub proof fn lemma_codec32(big: bool, x: u32) ensures e32(big, x).len() == 4, d32(big, e32(big, x), 0) == x { reveal(byte_of); }
+/// base-256 digits of a u16 / u32 recombine to the value (bit-vector proof: stable in any context)
+#[verifier::spinoff_prover]
+pub proof fn lemma_digits16(x: u16)
+    ensures byte_of(x as int, 0) as int + 256 * (byte_of(x as int, 1) as int) == x,
+{
+    reveal(byte_of);
+    let a: u16 = x % 256; let b: u16 = x / 256 % 256;
+    assert(a + 256 * b == x && a < 256 && b < 256) by (bit_vector) requires a == x % 256, b == x / 256 % 256;
+}
+#[verifier::spinoff_prover]
+pub proof fn lemma_digits32(x: u32)
+    ensures byte_of(x as int, 0) as int + 256 * (byte_of(x as int, 1) as int) + 65536 * (byte_of(x as int, 2) as int) + 16777216 * (byte_of(x as int, 3) as int) == x,
+{
+    reveal(byte_of);
+    let a: u32 = x % 256; let b: u32 = x / 256 % 256; let c: u32 = x / 65536 % 256; let d: u32 = x / 16777216 % 256;
+    assert(a + 256 * b + 65536 * c + 16777216 * d == x && a < 256 && b < 256 && c < 256 && d < 256) by (bit_vector)
+        requires a == x % 256, b == x / 256 % 256, c == x / 65536 % 256, d == x / 16777216 % 256;
+}
+#[verifier::spinoff_prover]
+pub proof fn lemma_codec16(big: bool, x: u16) ensures e16(big, x).len() == 2, d16(big, e16(big, x), 0) == x { lemma_digits16(x); }
+#[verifier::spinoff_prover]
+pub proof fn lemma_codec32(big: bool, x: u32) ensures e32(big, x).len() == 4, d32(big, e32(big, x), 0) == x { lemma_digits32(x); }
+#[verifier::spinoff_prover]
 pub proof fn lemma_split64(x: u64)
     ensures ({
         let lo = (x % 4294967296) as u32; let hi = (x / 4294967296) as u32;
